@@ -521,6 +521,75 @@ def main(out_path):
     _, _, body = find_fn(src, 'process_completed_checks')
     rx(r'^\{ let msgs = self\.network_graph\.pending_checks\.check_resolved_futures\(&\*self\.network_graph\);', norm(body), 'P2PGossipSync::process_completed_checks')
 
+    # ------------------------------------------------------------------ persistence (impl Writeable / Readable)
+    def tlv_entries(block, what):
+        """entries `(N, expr, kind)` of a write_tlv_fields!/read_tlv_fields! body (comments already stripped)"""
+        out, i, n = [], 0, len(block)
+        while i < n:
+            if block[i] == '(':
+                d, j = 0, i
+                while True:
+                    if block[j] == '(': d += 1
+                    if block[j] == ')':
+                        d -= 1
+                        if d == 0: break
+                    j += 1
+                ent = block[i + 1:j]
+                m = re.match(r'\s*(\d+)\s*,\s*(.*)\s*,\s*(\(.*\)|\w+)\s*$', ent, re.S)
+                need(m, "%s: TLV entry %r not understood" % (what, ent))
+                out.append((int(m.group(1)), ' '.join(m.group(2).split()), ' '.join(m.group(3).split())))
+                i = j + 1
+            else:
+                i += 1
+        return out
+    def impl_body(kind, ty):
+        m = re.search(r'impl(?:<[^>]*>)? %s(?:<[^>]*>)? for %s(?:<[^>]*>)? \{' % (kind, ty), src)
+        need(m, "impl %s for %s not found" % (kind, ty))
+        from rs2lean import match_brace
+        return norm(src[m.end() - 1: match_brace(src, m.end() - 1)])
+    def macro_block(body, macro, what):
+        m = re.search(re.escape(macro) + r'\((?:writer|reader), \{(.*?)\}\);', body)
+        need(m, "%s: %s not found" % (what, macro))
+        return m.group(1)
+    persisted = []   # (block, type, member expression, kind)
+    for ty in ['ChannelUpdateInfo', 'ChannelInfo', 'NodeAnnouncementInfo', 'NodeInfo', 'NetworkGraph']:
+        wb = impl_body('Writeable', ty)
+        for (t, e, k) in tlv_entries(macro_block(wb, 'write_tlv_fields!', ty + '::write'), ty + '::write'):
+            persisted.append((ty + '.write', t, e, k))
+        rb = impl_body('ReadableArgs' if ty == 'NetworkGraph' else 'Readable', ty)
+        mac = '_init_and_read_len_prefixed_tlv_fields!' if ty in ('NodeAnnouncementInfo', 'NodeInfo') else 'read_tlv_fields!'
+        for (t, e, k) in tlv_entries(macro_block(rb, mac, ty + '::read'), ty + '::read'):
+            persisted.append((ty + '.read', t, e, k))
+    L.append('/-- the TLV fields of the five persisted gossip structures: (block, TLV type, member / variable, kind) as written')
+    L.append('    by `impl Writeable` and read by `impl Readable(Args)` in gossip.rs -/')
+    L.append('def persistedFields : List (String × Nat × String × String) := [')
+    L.append(',\n'.join('  ("%s", %d, "%s", "%s")' % (b_, t, e.replace('"', "'"), k.replace('"', "'")) for (b_, t, e, k) in persisted))
+    L.append(']')
+    L.append('')
+    # how the readers turn the records into the structs (what Model/GossipPersist.lean mirrors)
+    rb = impl_body('Readable', 'ChannelUpdateInfo')
+    rx(r'if let Some\(htlc_maximum_msat\) = htlc_maximum_msat \{ Ok\(ChannelUpdateInfo \{ last_update: _init_tlv_based_struct_field!\(last_update, required\), enabled: _init_tlv_based_struct_field!\(enabled, required\), cltv_expiry_delta: _init_tlv_based_struct_field!\(cltv_expiry_delta, required\), htlc_minimum_msat: _init_tlv_based_struct_field!\(htlc_minimum_msat, required\), htlc_maximum_msat, fees: _init_tlv_based_struct_field!\(fees, required\), last_update_message: _init_tlv_based_struct_field!\(last_update_message, required\), \}\) \} else \{ Err\(DecodeError::InvalidValue\) \}', rb, 'ChannelUpdateInfo::read construction')
+    rb = impl_body('MaybeReadable', 'ChannelUpdateInfoDeserWrapper')
+    rx(r'Ok\(channel_update_option\) => Ok\(Some\(Self\(channel_update_option\)\)\), Err\(DecodeError::ShortRead\) => Ok\(None\), Err\(DecodeError::InvalidValue\) => Ok\(None\), Err\(err\) => Err\(err\),', rb, 'ChannelUpdateInfoDeserWrapper')
+    rb = impl_body('Readable', 'ChannelInfo')
+    rx(r'Ok\(ChannelInfo \{ features: _init_tlv_based_struct_field!\(features, required\), node_one: _init_tlv_based_struct_field!\(node_one, required\), one_to_two: one_to_two_wrap\.map\(\|w\| w\.0\)\.unwrap_or\(None\), node_two: _init_tlv_based_struct_field!\(node_two, required\), two_to_one: two_to_one_wrap\.map\(\|w\| w\.0\)\.unwrap_or\(None\), capacity_sats: _init_tlv_based_struct_field!\(capacity_sats, required\), announcement_message: _init_tlv_based_struct_field!\(announcement_message, required\), announcement_received_time: _init_tlv_based_struct_field!\( announcement_received_time, \(default_value, 0\) \), node_one_counter: u32::MAX, node_two_counter: u32::MAX, \}\)', rb, 'ChannelInfo::read construction')
+    wb = impl_body('Writeable', 'NodeAnnouncementInfo')
+    rx(r'let features = self\.features\(\); let last_update = self\.last_update\(\); let rgb = self\.rgb\(\); let alias = self\.alias\(\); let addresses = self\.addresses\(\); let announcement_message = self\.announcement_message\(\);', wb, 'NodeAnnouncementInfo::write accessors')
+    rb = impl_body('Readable', 'NodeAnnouncementInfo')
+    rx(r'if let Some\(announcement\) = announcement_message \{ Ok\(Self::Relayed\(announcement\)\) \} else \{ Ok\(Self::Local\(NodeAnnouncementDetails \{ features: features\.0\.unwrap\(\), last_update: last_update\.0\.unwrap\(\), rgb: rgb\.0\.unwrap\(\), alias: alias\.0\.unwrap\(\), addresses, \}\)\) \}', rb, 'NodeAnnouncementInfo::read construction')
+    rb = impl_body('Readable', 'NodeInfo')
+    rx(r'Ok\(NodeInfo \{ announcement_info: announcement_info_wrap\.map\(\|w\| w\.0\), channels, node_counter: u32::MAX, \}\)', rb, 'NodeInfo::read construction')
+    wb = impl_body('Writeable', 'NetworkGraph')
+    rx(r'write_ver_prefix!\(writer, SERIALIZATION_VERSION, MIN_SERIALIZATION_VERSION\); self\.chain_hash\.write\(writer\)\?; let channels = self\.channels\.read\(\)\.unwrap\(\); \(channels\.len\(\) as u64\)\.write\(writer\)\?; for \(ref chan_id, ref chan_info\) in channels\.unordered_iter\(\) \{ \(\*chan_id\)\.write\(writer\)\?; chan_info\.write\(writer\)\?; \} let nodes = self\.nodes\.read\(\)\.unwrap\(\); \(nodes\.len\(\) as u64\)\.write\(writer\)\?; for \(ref node_id, ref node_info\) in nodes\.unordered_iter\(\) \{ node_id\.write\(writer\)\?; node_info\.write\(writer\)\?; \}', wb, 'NetworkGraph::write body')
+    need('removed_' not in wb, "NetworkGraph::write now mentions the removed_* tombstones")
+    rb = impl_body('ReadableArgs', 'NetworkGraph')
+    rx(r'for \(_, chan\) in channels\.unordered_iter_mut\(\) \{ chan\.node_one_counter = nodes\.get\(&chan\.node_one\)\.ok_or\(DecodeError::InvalidValue\)\?\.node_counter; chan\.node_two_counter = nodes\.get\(&chan\.node_two\)\.ok_or\(DecodeError::InvalidValue\)\?\.node_counter; \}', rb, 'NetworkGraph::read endpoint check')
+    rx(r'removed_nodes: Mutex::new\(new_hash_map\(\)\), removed_channels: Mutex::new\(new_hash_map\(\)\), pending_checks: utxo::PendingChecks::new\(\),', rb, 'NetworkGraph::read: tombstones and pending lookups start empty')
+    mv = rx(r'const SERIALIZATION_VERSION: u8 = (\d+); const MIN_SERIALIZATION_VERSION: u8 = (\d+); impl<L: Logger> Writeable for NetworkGraph<L>', norm(src), 'NetworkGraph serialization versions')
+    L.append('def GRAPH_SERIALIZATION_VERSION : Nat := %s' % mv.group(1))
+    L.append('def GRAPH_MIN_SERIALIZATION_VERSION : Nat := %s' % mv.group(2))
+    L.append('')
+
     L.append('end Gen')
     L.append('end Ldk.Gossip')
     text = '\n'.join(L) + '\n'
